@@ -3859,12 +3859,13 @@ def sptenrand(
         raise ValueError(f"Density must be a fraction (0, 1] but received {density}")
 
     shape = parse_shape(shape)
-    if isinstance(density, float):
+    if isinstance(density, (float, np.floating)):
         # TODO this should be an int
         # A count below one would be read as a fraction of the size again
-        valid_nonzeros = max(1.0, float(prod(shape) * density))
-    elif isinstance(nonzeros, (int, float)):
-        valid_nonzeros = nonzeros
+        valid_nonzeros = max(1.0, float(prod(shape) * float(density)))
+    elif isinstance(nonzeros, (int, float, np.integer, np.floating)):
+        # numpy scalars (np.prod(shape) // 4, np.float32) as the Python number they hold
+        valid_nonzeros = nonzeros.item() if isinstance(nonzeros, np.generic) else nonzeros
     else:  # pragma: no cover
         raise ValueError(
             f"Incorrect types for density:{density} and nonzeros:{nonzeros}"
